@@ -167,6 +167,39 @@ def runBans (ts : List String) : String :=
     let r := banRun (Gen.registeredTags.map (·.1)) (Gen.registeredFilters.map (·.1)) {} ops
     String.join (r.2.map fun b => if b then "1" else "0")
 
+/-- `cache {op}`: a history on one set's cache; answers results and the fetch log -/
+def runCache (ts : List String) : String :=
+  let rec go : Nat → List String → List CacheOp → Option (List CacheOp)
+    | 0, _, _ => none
+    | _, [], acc => some acc.reverse
+    | fuel+1, "G" :: n :: rest, acc => (Bytes.ofHex n).bind fun nb => go fuel rest (.fromCache nb :: acc)
+    | fuel+1, "A" :: rest, acc => go fuel rest (.cleanAll :: acc)
+    | fuel+1, "K" :: k :: rest, acc =>
+      match k.toNat? with
+      | some kn => match (rest.take kn).mapM Bytes.ofHex with
+        | some ns => go fuel (rest.drop kn) (.clean ns :: acc)
+        | none => none
+      | none => none
+    | fuel+1, "D0" :: rest, acc => go fuel rest (.setDebug false :: acc)
+    | fuel+1, "D1" :: rest, acc => go fuel rest (.setDebug true :: acc)
+    | fuel+1, "W" :: n :: c :: rest, acc =>
+      match Bytes.ofHex n with
+      | some nb => if c == "!" then go fuel rest (.setFile nb none :: acc)
+                   else match Bytes.ofHex c with
+                     | some cb => go fuel rest (.setFile nb (some cb) :: acc)
+                     | none => none
+      | none => none
+    | _, _, _ => none
+  match go (ts.length + 1) ts [] with
+  | none => "bad-request"
+  | some ops =>
+    let r := cacheRun {} ops
+    let shown := r.2.filterMap fun
+      | .tpl id => some s!"t{id}"
+      | .err => some "e"
+      | .unit => none
+    " ".intercalate shown ++ " | " ++ ",".intercalate (r.1.fetches.map Bytes.toHex)
+
 def envOf : Val → Env
   | .smap _ kvs => kvs
   | _ => []
